@@ -63,7 +63,7 @@ def make_instance(inst_id: str):
     if dom == "tsp":
         from moptipyapps.tsp.instance import Instance
         return Instance.from_resource(rest)
-    if dom == "ttp":
+    if dom in ("ttp", "ttpmo"):
         from moptipyapps.ttp.instance import Instance
         return Instance.from_resource(rest)
     if dom == "qap":
@@ -159,6 +159,10 @@ def make_setup(setup_id: str, budget: int):
         mod = _example("ttp_example_experiment_rls_rs")
         fn = mod.rls if parts[1] == "rls" else mod.rs
         return lambda inst: finish(fn(inst))
+    if dom == "ttpmo":
+        mod = _example("ttp_example_experiment_mo")
+        fn = mod.rls if parts[1] == "rls" else mod.mo_nsga2
+        return lambda inst: finish(fn(inst))
     if dom == "qap":
         mod = _example("qap_example_experiment_rls_rs")
         fn = mod.rls if parts[1] == "rls" else mod.rs
@@ -200,6 +204,8 @@ def instances_for(dom: str) -> list:
         return [f"tsp:{n}" for n in TSP_INSTANCES]
     if dom == "ttp":
         return [f"ttp:{n}" for n in TTP_INSTANCES]
+    if dom == "ttpmo":
+        return [f"ttpmo:{n}" for n in TTP_INSTANCES]
     if dom == "qap":
         return [f"qap:{n}" for n in QAP_INSTANCES]
     if dom == "instgen":
@@ -259,6 +265,12 @@ def record_from_log_text(text: str) -> dict:
             c = row.split(";")
             progress.append([c[ei], c[fi]])
     errs = sorted(k for k in sec if k.startswith("ERROR"))
+    archive = []
+    k = 0
+    while f"ARCHIVE_{k}_Y" in sec:
+        archive.append(["\n".join(sec.get(f"ARCHIVE_{k}_X", [])),
+                        "\n".join(sec[f"ARCHIVE_{k}_Y"])])
+        k += 1
     return {"best_f": st.get("bestF"), "total_fes": st.get("totalFEs"),
             "last_improvement_fe": st.get("lastImprovementFE"),
             "max_fes": su.get("p.maxFEs"), "seed": su.get("p.randSeed"),
@@ -267,7 +279,11 @@ def record_from_log_text(text: str) -> dict:
             "f_upper": su.get("f.upperBound"),
             "y": "\n".join(sec["RESULT_Y"]),
             "x": "\n".join(sec.get("RESULT_X", [])),
-            "progress": progress, "error_sections": errs}
+            "progress": progress, "error_sections": errs,
+            "best_fs": st.get("bestFs"), "archive": archive,
+            "archive_qualities": sec.get("ARCHIVE_QUALITIES", []),
+            "f1_upper": su.get("f.f1.upperBound"),
+            "weights": su.get("f.weights")}
 
 
 def log_path(base: str, algo_name: str, inst_name: str, seed: int) -> str:
